@@ -88,7 +88,11 @@ def history(m, seed_label, steps, with_queries, fails, params):
         elif op in ("hadamard", "multiply"):
             f = mk_factor(m, rng, kind, R, D); nxt = m.hadamard(cur, f.reg, uf)
         elif op == "hadamard1":
-            f = mk_factor(m, rng, kind, 1, D); nxt = m.hadamard(cur, f.reg, uf)
+            if R == 1 and rng.random() < 0.5:      # one-component measure, batched factor (broadcast of the measure)
+                f = mk_factor(m, rng, kind, int(rng.integers(2, 4)), D)
+            else:
+                f = mk_factor(m, rng, kind, 1, D)
+            nxt = m.hadamard(cur, f.reg, uf)
         elif op == "product":
             nxt = m.product(cur)
         elif op == "slice":
@@ -134,6 +138,8 @@ def history(m, seed_label, steps, with_queries, fails, params):
             break
         trace.append((op, kind, uf))
         check_inv(m, fails, nxt, f"history:{op}:{kind}", dict(params, step=s, op=op, kind=kind, uf=uf, trace=[t[0] for t in trace]))
+        if nxt != cur:       # the operand of the step keeps consistent caches, too
+            check_inv(m, fails, cur, f"history:{op}:{kind}:operand", dict(params, step=s, op=op, kind=kind, uf=uf, trace=[t[0] for t in trace]))
         cur = nxt
         if m.regs[cur].R > 8:
             cur = m.slice(cur, [0, 1])
@@ -207,6 +213,10 @@ def case_single(kind, uf, cached, R1, R2, D, diag=False):
                 continue
             r = m.multiply(u.reg, f.reg, uf) if op == "multiply" else m.hadamard(u.reg, f.reg, uf)
             check_inv(m, fails, r, f"{op}:{kind}", params)
+            # the operands are not modified, and whatever was cached in them meanwhile is consistent with THEIR parameters
+            check_inv(m, fails, u.reg, f"{op}:{kind}:left-operand", params)
+            if kind == "measure":
+                check_inv(m, fails, f.reg, f"{op}:{kind}:right-operand", params)
             if m.regs.get(r) is not None:
                 m.query("integral", r)
                 check_inv(m, fails, r, f"{op}:{kind}:after-integral", params)
@@ -227,6 +237,7 @@ def cases(seed, tier):
             out.append(case_single(kind, True, cached, 2, 3, 3))
             out.append(case_single(kind, True, cached, 1, 2, 2))
             out.append(case_single(kind, False, cached, 2, 2, 3))
+            out.append(case_single(kind, True, cached, 1, 3, 2))
         for uf in (False, True):
             out.append(case_single(kind, uf, bool(uf), 2, 2, 3, diag=True))
     for i, q in enumerate(["log_integral", "integral_light", "integrate_x", "none"]):
